@@ -218,7 +218,7 @@ class _Lower:
         if t == "ListNode":
             return L(ast.List(elts=[self.expr(a) for a in n.args], ctx=ctx))
         if t == "CondExprNode":
-            return L(ast.IfExp(test=self.expr(n.test), body=self.expr(n.true_val), orelse=self.expr(n.false_val)))
+            return L(ast.IfExp(test=self.expr(getattr(n, 'condition', None) or n.test), body=self.expr(n.true_val), orelse=self.expr(n.false_val)))
         if t == "TypecastNode":
             return self.expr(n.operand)
         if t == "NewExprNode":
@@ -275,12 +275,12 @@ class CySource:
                 fn.col_offset = 0
                 ast.fix_missing_locations(fn)
                 self.functions[prefix + name] = fn
-            except Unsupported as e:
+            except (Unsupported, AttributeError, KeyError) as e:
                 try:
-                    nm = node.name if t == "DefNode" else "?"
+                    nm = node.name if t == "DefNode" else low.decl_name(node.declarator)
                 except Exception:
                     nm = "?"
-                self.errors[prefix + str(nm)] = str(e)
+                self.errors[prefix + str(nm)] = "%s: %s" % (type(e).__name__, e)
         elif t in ("CClassDefNode", "PyClassDefNode"):
             cname = getattr(node, "class_name", None) or getattr(node, "name", "?")
             self._collect(node.body, prefix + cname + ".")
